@@ -19,6 +19,28 @@ BAD_THRESHOLDS = [{"$py": "float", "v": "nan"}, {"$py": "float", "v": "inf"}, {"
                   {"$py": "decimal_nan"}, {"$py": "decimal_2_5"}, {"$py": "fraction_half"}, {"$py": "complex"}, 0.0, -0.0, 1e-300]
 
 
+_FAST = {}
+
+
+def _fast_sign(seed, msg):
+    """deterministic ed25519 signature; OpenSSL through `cryptography` when present (cross-checked with the reference
+    implementation on first use), else the reference itself"""
+    from ..refs import ed25519 as _ref
+
+    if "ok" not in _FAST:
+        try:
+            from cryptography.hazmat.primitives.asymmetric.ed25519 import Ed25519PrivateKey
+
+            probe = Ed25519PrivateKey.from_private_bytes(bytes(range(32))).sign(b"vf-probe")
+            _FAST["ok"] = probe == _ref.sign(bytes(range(32)), b"vf-probe")
+            _FAST["cls"] = Ed25519PrivateKey
+        except Exception:  # noqa: BLE001
+            _FAST["ok"] = False
+    if _FAST["ok"]:
+        return _FAST["cls"].from_private_bytes(seed).sign(msg)
+    return _ref.sign(seed, msg)
+
+
 def _payload(rng):
     return jsonvals.rand_payload(rng, "small")
 
@@ -33,8 +55,10 @@ def gen_case(rng, gpg=None, stratum=None):
             stratum = "mixed"
         elif r < 0.47:
             stratum = "accept"
-        elif r < 0.5:
+        elif r < 0.49:
             stratum = "many_signers"
+        elif r < 0.5:
+            stratum = "crowded"
         else:
             stratum = "sole:" + rng.choice(FILTERS)
     signed = _payload(rng)
@@ -75,6 +99,42 @@ def gen_case(rng, gpg=None, stratum=None):
         for k in auth[nvalid:]:
             if rng.random() < 0.5:
                 add(k.hex, rng.choice(ivs), k)
+    elif stratum == "crowded":
+        # far more entries than any real envelope: tens to hundreds of well-formed entries under UNAUTHORIZED keys (valid for
+        # their own keys) and junk; the authorized signers sit anywhere, often at the very end.  No cap, notice limit or batch
+        # boundary may change which entries count.
+        n_out = rng.choice([11, 12, 20, 33, 64, 65, 66, 100, 129, 257])
+        crowd = [gkeys.key(200 + i) for i in range(n_out)]
+        nvalid = rng.randint(0, n_auth)
+        t = rng.choice([max(1, nvalid), nvalid + 1, 1, 1])
+        for k in auth[:nvalid]:
+            add(k.hex, rng.choice(vs), k)
+        tail = list(pairs)
+        tail_states = list(st_names)
+        del pairs[:], st_names[:]
+        hdr = gentries._hdr(rng, "gnupg")
+        for k in crowd:
+            # crowd entries never enter the model's count (their keys are not authorized), so they are made with the fast
+            # signer (checked against the reference once per process); they are genuinely valid for their own keys
+            if gpg:
+                from ..refs import openpgp as _pgp
+
+                pairs.append([k.hex, {"other_headers": hdr.hex(), "signature": _fast_sign(k.seed, _pgp.digest(data, hdr)).hex()}])
+            else:
+                pairs.append([k.hex, {"signature": _fast_sign(k.seed, data).hex()}])
+            st_names.append("valid_by_unauthorized_crowd_key")
+        where = rng.choice(["end", "end", "start", "middle", "spread"])
+        if where == "end":
+            pairs.extend(tail); st_names.extend(tail_states)
+        elif where == "start":
+            pairs[:0] = tail; st_names[:0] = tail_states
+        elif where == "middle":
+            m = len(pairs) // 2
+            pairs[m:m] = tail; st_names[m:m] = tail_states
+        else:
+            for pr, stn in zip(tail, tail_states):
+                j = rng.randint(0, len(pairs))
+                pairs.insert(j, pr); st_names.insert(j, stn)
     elif stratum == "accept":
         nvalid = rng.randint(1, n_auth)
         t = rng.randint(1, nvalid)
@@ -205,8 +265,10 @@ def gen_case(rng, gpg=None, stratum=None):
             pairs.append([k, v])
             st_names.append("junk")
     order = list(range(len(pairs)))
-    rng.shuffle(order)
+    if stratum != "crowded":
+        rng.shuffle(order)
     pairs = [pairs[i] for i in order]
+    st_names = [st_names[i] for i in order] if stratum == "crowded" else st_names
     authorized = [k.hex for k in auth] + extra_auth
     if stratum != "sole:distinct":
         rng.shuffle(authorized)
